@@ -26,6 +26,10 @@ pub struct Case {
     /// delta launches the producer itself (so that grep / blame input is recognised as such)
     #[serde(default)]
     pub child: Option<ChildSetup>,
+    /// delta runs as the child of a process with this command line (what `git show .. | delta`
+    /// looks like to the scan of the process table); the scan then ends early or late
+    #[serde(default)]
+    pub parent: Option<Vec<String>>,
 }
 
 const COLORS: &[&str] = &[
@@ -82,8 +86,38 @@ pub fn style_reference_cells(seed: u64) -> Vec<Case> {
             let sign = &a[..4];
             let third: &str = FAMILY.iter().copied().find(|x| x != a && x != b && x.contains("non-emph") && x.starts_with(sign)).or_else(|| FAMILY.iter().copied().find(|x| x != a && x != b && x.contains("non-emph"))).or_else(|| FAMILY.iter().copied().find(|x| x != a && x != b)).unwrap_or("zero-style");
             let args: Vec<String> = vec!["--paging".into(), "never".into(), "--no-gitconfig".into(), "--width".into(), "100".into(), format!("--{}", a), b.to_string(), format!("--{}", third), "dim".into()];
-            out.push(Case { kind: "style-reference-cell".into(), args, gitconfig: None, env: vec![], stdin: diff.clone().into(), child: None });
+            out.push(Case { kind: "style-reference-cell".into(), args, gitconfig: None, env: vec![], stdin: diff.clone().into(), child: None, parent: None });
         }
+    }
+    out
+}
+
+/// Coverage floor: inputs whose rendering depends on which command produced them, with delta started
+/// as the child of that command (found by the real scan of the process table).  `check_case` makes
+/// the scan end before or long after the first lines arrive: "same input, options and environment"
+/// must mean the same bytes.
+pub fn caller_cells(seed: u64) -> Vec<Case> {
+    let mut rng = Rng::new(mix(seed, &[tag("C10"), tag("callercells")]));
+    let mut out = Vec::new();
+    let base: Vec<String> = vec!["--paging".into(), "never".into(), "--no-gitconfig".into(), "--width".into(), "100".into()];
+    let mut gp = gen::random_params(&mut rng, 3);
+    gp.flavor = gen::Flavor::Git;
+    gp.sections = vec![gen::SectionKind::Modified, gen::SectionKind::RenamedChanged, gen::SectionKind::Modified];
+    let diff = gen::to_bytes(&gen::generate(&mut rng, &gp));
+    let src = "fn main() {\n    let x = \"T000900 str\";\n    // T000901\n}\n".repeat(3);
+    let cells: Vec<(&str, Vec<&str>, Vec<&str>, Vec<(&str, &str)>, Vec<u8>)> = vec![
+        ("piped-git-diff-relative", vec!["git", "diff", "--relative"], vec!["--relative-paths"], vec![("GIT_PREFIX", "src/")], diff.clone()),
+        ("piped-git-log-p", vec!["git", "log", "-p", "--relative=src"], vec!["--relative-paths", "--line-numbers"], vec![("GIT_PREFIX", "src/")], diff.clone()),
+        ("piped-git-show-file", vec!["git", "show", "HEAD~2:src/sample.rs"], vec![], vec![], src.clone().into_bytes()),
+        ("piped-git-blame", vec!["git", "blame", "src/main.rs"], vec![], vec![], gen::blame_input(&mut rng, 12)),
+        ("piped-git-grep", vec!["git", "grep", "-n", "fn"], vec![], vec![], gen::grep_input(&mut rng, 12)),
+        ("piped-git-grep-W", vec!["git", "grep", "-W", "-n", "fn"], vec!["--hyperlinks"], vec![], gen::grep_input(&mut rng, 12)),
+        ("piped-rg", vec!["rg", "-n", "fn"], vec![], vec![], gen::grep_input(&mut rng, 12)),
+    ];
+    for (kind, parent, extra, envv, input) in cells {
+        let mut args = base.clone();
+        args.extend(extra.iter().map(|x| x.to_string()));
+        out.push(Case { kind: kind.into(), args, gitconfig: None, env: envv.iter().map(|(k, v)| (k.to_string(), v.to_string())).collect(), stdin: input.into(), child: None, parent: Some(parent.iter().map(|x| x.to_string()).collect()) });
     }
     out
 }
@@ -118,7 +152,7 @@ pub fn gen_case(seed: u64, idx: usize) -> Case {
             gc.push_str("[delta]\n\tblame-palette = red brightblue \"#102030\" purple\n");
         }
         args.push("--show-config".into());
-        return Case { kind: "show-config".into(), args, gitconfig: Some(gc), env: vec![], stdin: Blob::default(), child: None };
+        return Case { kind: "show-config".into(), args, gitconfig: Some(gc), env: vec![], stdin: Blob::default(), child: None, parent: None };
     }
     let opts = gen::random_delta_opts(&mut rng);
     let mut args = opts.args.clone();
@@ -203,13 +237,14 @@ pub fn gen_case(seed: u64, idx: usize) -> Case {
         for c in &cmd {
             a2.push((*c).into());
         }
-        return Case { kind: kind2.into(), args: a2, gitconfig, env: vec![], stdin: Blob::default(), child: Some(ChildSetup { names: vec!["git".into(), "rg".into()], stdout: out.into(), stderr: Blob::default(), stderr_first: false, exit: 0, git_version: "git version 2.45.1".into() }) };
+        return Case { kind: kind2.into(), args: a2, gitconfig, env: vec![], stdin: Blob::default(), child: Some(ChildSetup { names: vec!["git".into(), "rg".into()], stdout: out.into(), stderr: Blob::default(), stderr_first: false, exit: 0, git_version: "git version 2.45.1".into() }), parent: None };
     }
-    Case { kind: kind.into(), args, gitconfig, env: vec![], stdin: stdin.into(), child: None }
+    Case { kind: kind.into(), args, gitconfig, env: vec![], stdin: stdin.into(), child: None, parent: None }
 }
 
-fn spec_for(case: &Case, hash_seed: u64, rchunks: Vec<i64>, rdelays: Vec<i64>) -> RunSpec {
+fn spec_for(case: &Case, hash_seed: u64, rchunks: Vec<i64>, rdelays: Vec<i64>, scan_delay_ms: i64) -> RunSpec {
     let mut spec = RunSpec::default();
+    spec.parent_cmdline = case.parent.clone();
     spec.args = case.args.clone();
     spec.gitconfig = case.gitconfig.clone();
     spec.env = case.env.clone();
@@ -218,6 +253,9 @@ fn spec_for(case: &Case, hash_seed: u64, rchunks: Vec<i64>, rdelays: Vec<i64>) -
     spec.plan = Plan::basic(hash_seed);
     spec.plan.rchunks = rchunks;
     spec.plan.rdelays_ms = rdelays;
+    if case.parent.is_some() {
+        spec.plan.scan_delay_ms = scan_delay_ms;
+    }
     spec
 }
 
@@ -234,7 +272,9 @@ pub fn check_case(env: &Env, ctx: &Ctx, case: &Case, hash_seeds: &[u64]) -> (Opt
             2 => (vec![64], vec![5, 450]),
             _ => (vec![33, 200], vec![60_000, 0, 1]),
         };
-        let r = match run(env, &spec_for(case, *hs, rch, rdl), &ctx.dir.join("run"), false) {
+        // (cases with a parent process only) the scan of the process table ends early or late
+        let scan_delay = [0i64, 900, 0, 350][i % 4];
+        let r = match run(env, &spec_for(case, *hs, rch, rdl, scan_delay), &ctx.dir.join("run"), false) {
             Ok(r) => r,
             Err(_) => continue,
         };
@@ -297,6 +337,7 @@ pub fn main_c10(env: &Env, tier: &str, seed: u64, replay: Option<&str>) -> i32 {
     let (n, h) = if tier == "thorough" { (20000, 12) } else { (500, 4) };
     let mut cases: Vec<Case> = (0..n).map(|i| gen_case(seed, i)).collect();
     cases.extend(style_reference_cells(seed));
+    cases.extend(caller_cells(seed));
     let pool: Vec<u64> = (0..256).map(|i| mix(seed, &[tag("C10"), tag("hashpool"), i as u64]) % 1_000_000).collect();
     let results = par_map(&env.scratch, &cases, &|ctx, i, c: &Case| {
         let hs: Vec<u64> = (0..h).map(|j| pool[(i * 7 + j * 31) % pool.len()]).collect();
